@@ -262,7 +262,7 @@ class __Class(_pre.Pregex):
         simplified_classes = __class__.__verbose_to_shorthand(verbose_classes, simplify_word)
         simplified_pattern = ''.join(f"[{'^' if is_negated else ''}{''.join(simplified_classes)}]")
         # Replace any one-character classes with a single (possibly escaped) character
-        simplified_pattern = _re.sub(r"\[([^\\]|\\.)\]", lambda m: str(__class__._to_pregex(m.group(1))) \
+        simplified_pattern = _re.sub(r"\A\[([^\\]|\\.)\]\Z", lambda m: str(__class__._to_pregex(m.group(1))) \
             if len(m.group(1)) == 1 else m.group(1), simplified_pattern)
         # Replace negated class shorthand-notation characters with their non-class shorthand-notation.
         return verbose_pattern, _re.sub(r"\[\^(\\w|\\d|\\s)\]", lambda m: m.group(1).upper(), simplified_pattern)
